@@ -82,6 +82,75 @@ def m_unwrap_or(E, path, a):
     return v.fields[0] if v.var in ('Some', 'Ok') else a[1]
 
 
+def _cell(r):
+    c, k = nav(r); return c, k
+
+
+def m_get_or_insert(E, path, a):
+    c, k = _cell(a[0]); v = c[k]
+    if v.var == 'None': c[k] = opt_some(E, a[1]); v = c[k]
+    return Ref(v.fields, (0,), None, 'local')
+
+
+def m_opt_insert(E, path, a):
+    c, k = _cell(a[0]); c[k] = opt_some(E, a[1])
+    return Ref(c[k].fields, (0,), None, 'local')
+
+
+def m_opt_take(E, path, a):
+    c, k = _cell(a[0]); v = c[k]; c[k] = opt_none(E); return v
+
+
+def m_opt_replace(E, path, a):
+    c, k = _cell(a[0]); v = c[k]; c[k] = opt_some(E, a[1]); return v
+
+
+def m_opt_as_ref(E, path, a):
+    v = deref(a[0])
+    if v.var in ('Some', 'Ok'): return EnumV(v.ty, v.var, v.idx, [Ref(v.fields, (0,), None, 'local')])
+    if v.var == 'Err': return EnumV(v.ty, v.var, v.idx, [Ref(v.fields, (0,), None, 'local')])
+    return opt_none(E)
+
+
+def m_opt_copied(E, path, a):
+    v = a[0]
+    if v.var == 'Some': return opt_some(E, clone(deref(v.fields[0])))
+    return v
+
+
+def m_opt_map(E, path, a):
+    v = a[0]
+    if v.var in ('Some', 'Ok'): return EnumV(v.ty, v.var, v.idx, [call_closure(E, a[1], [v.fields[0]])])
+    return v
+
+
+def m_opt_and_then(E, path, a):
+    v = a[0]
+    if v.var in ('Some', 'Ok'): return call_closure(E, a[1], [v.fields[0]])
+    return v
+
+
+def m_unwrap_or_else(E, path, a):
+    v = a[0]
+    if v.var in ('Some', 'Ok'): return v.fields[0]
+    return call_closure(E, a[1], [v.fields[0]] if v.var == 'Err' else [])
+
+
+def m_map_or(E, path, a):
+    v = a[0]
+    if v.var in ('Some', 'Ok'): return call_closure(E, a[2], [v.fields[0]])
+    return a[1]
+
+
+def m_opt_or(E, path, a):
+    return a[0] if a[0].var in ('Some', 'Ok') else a[1]
+
+
+def m_ok_or(E, path, a):
+    v = a[0]
+    return res_ok(v.fields[0]) if v.var == 'Some' else res_err(a[1])
+
+
 def m_opt_eq(E, path, a):
     x, y = deref(a[0]), deref(a[1])
     if x.idx != y.idx: return BoolV(False)
@@ -614,6 +683,14 @@ MODELS = [
     (r'(^|::)Result::<.*>::is_err$|(^|::)Result::is_err$', m_res_is_err),
     (r'(^|::)(Option|Result)(::<.*>)?::(unwrap|expect)$', m_unwrap),
     (r'(^|::)(Option|Result)(::<.*>)?::unwrap_or$', m_unwrap_or),
+    (r'(^|::)Option(::<.*>)?::get_or_insert$', m_get_or_insert), (r'(^|::)Option(::<.*>)?::insert$', m_opt_insert),
+    (r'(^|::)Option(::<.*>)?::take$', m_opt_take), (r'(^|::)Option(::<.*>)?::replace$', m_opt_replace),
+    (r'(^|::)(Option|Result)(::<.*>)?::as_(ref|mut)$', m_opt_as_ref),
+    (r'(^|::)Option(::<.*>)?::(copied|cloned)$', m_opt_copied),
+    (r'(^|::)(Option|Result)(::<.*>)?::map$', m_opt_map), (r'(^|::)(Option|Result)(::<.*>)?::and_then$', m_opt_and_then),
+    (r'(^|::)(Option|Result)(::<.*>)?::unwrap_or_else$', m_unwrap_or_else), (r'(^|::)(Option|Result)(::<.*>)?::map_or$', m_map_or),
+    (r'(^|::)(Option|Result)(::<.*>)?::or$', m_opt_or), (r'(^|::)Option(::<.*>)?::ok_or$', m_ok_or),
+    (r'(^|::)(Option|Result)(::<.*>)?::unwrap_unchecked$', m_unwrap),
     (r'from_ne_bytes$|from_le_bytes$', m_from_ne_bytes),
     (r'from_be_bytes$', m_from_be_bytes),
     (r'to_ne_bytes$|to_le_bytes$', m_to_ne_bytes),
